@@ -284,7 +284,8 @@ MODES_JOBS = [
     S("h_driver", drv(6, 1, n=1, cp=3, fk=2), ["modes.returned_checkpoint_identical"]),
     S("h_driver", drv(6, 2, n=2, cp=0, fk=2), ["modes.returned_checkpoint_identical"]),
     S("h_driver", drv(6, 0, n=1, cp=3, fk=5, t0=0), ["modes.returned_checkpoint_identical"]),
-    S("h_driver", drv(6, 2, n=1, cp=0, fk=2, C=3, user=1), ["modes.returned_checkpoint_identical"], split=4),
+    S("h_driver", drv(6, 2, n=1, cp=0, fk=2, C=2, user=1), ["modes.returned_checkpoint_identical"], split=4),
+    S("h_driver", drv(6, 2, n=1, cp=0, fk=2, C=3, user=1), ["modes.returned_checkpoint_identical"], tiers=T, split=12, timeout_ms=600000),
     S("h_driver", drv(6, 1, n=2, cp=3, fk=2), ["modes.returned_checkpoint_identical"], tiers=T, split=12),
     S("h_driver", drv(6, 2, n=1, cp=3, fk=2, C=3, user=1), ["modes.returned_checkpoint_identical"], tiers=T, split=12),
     S("h_driver", drv(6, 1, n=2, cp=0, fk=5), ["modes.returned_checkpoint_identical"], tiers=T, split=8),
@@ -514,3 +515,13 @@ FP_SELECT_JOBS = [
     S("h_mc_kernels@24fp", dict(ob=1, C=3), ["select.never_a_disabled"], timeout_ms=300000, tiers=T, split=8),
 ]
 PLAN["C09"]["jobs"] = PLAN["C09"]["jobs"] + FP_SELECT_JOBS
+
+PLAN["C20"]["jobs"] = PLAN["C20"]["jobs"] + [
+    S("h_driver", dict(ob=9, Cmin=1, Cmax=16), ["summary.prints_without_error"]),
+    S("h_driver", dict(ob=9, Cmin=17, Cmax=40), ["summary.prints_without_error"], tiers=T),
+]
+PLAN["C20"]["bounds"]["quick"] += "; weight summary: 1..16 channels x every number of disabled channels x 3 rotations, concrete weights 1:2:3:... (index arithmetic only, decided by constant folding)"
+PLAN["C08"]["jobs"] = PLAN["C08"]["jobs"] + only(MPI_JOBS, lambda j: j["cfg"]["ob"] == 0 and j["cfg"]["alg"] == 2 and "quick" in j["tiers"]) + \
+    only(STATE_JOBS, lambda j: j["cfg"]["alg"] == 2 and "quick" in j["tiers"])
+PLAN["C07"]["jobs"] = PLAN["C07"]["jobs"] + only(MPI_JOBS, lambda j: j["cfg"]["ob"] == 0 and j["cfg"]["alg"] == 1 and "quick" in j["tiers"]) + \
+    only(STATE_JOBS, lambda j: j["cfg"]["alg"] == 1 and "quick" in j["tiers"])
